@@ -4,3 +4,4 @@ import LyModel.Drv
 import LyModel.Props.C01
 import LyModel.Props.C12
 import LyModel.Props.C18
+import LyModel.Props.C03
